@@ -11,7 +11,7 @@ import z3
 
 from .. import env
 from ..env import INCONCLUSIVE, PROVED, REFUTED, Result
-from ..pysym.bmc import IVal, System, Values
+from ..pysym.bmc import IVal, System, Values, grants, shared_lines
 from ..pysym.cfg import ClassInfo, Model
 from ..pysym.interp import Unsupported
 from ..pysym.run import run_parallel
@@ -160,6 +160,7 @@ def obligation(name, config, K, kind):
         out["solver_s"] = time.time() - tq
         out["result"] = str(r)
         out["n_instr"] = [len(th.ins) for th in S.threads]
+        out["lines"] = shared_lines(S)
         if r == z3.sat:
             m = s.model()
             out["trace"] = S.trace(m)
@@ -186,6 +187,8 @@ import json, threading, time
 from basilisp.lang import atom as _atom, reference as _ref
 TRACE = json.loads({trace!r})
 CONFIG = json.loads({config!r})
+LINES = set(map(tuple, json.loads({lines!r})))
+ORDER = json.loads({order!r})
 FILES = {{_atom.__file__: "atom.py", _ref.__file__: "reference.py"}}
 
 def fns(t, j):
@@ -202,7 +205,7 @@ class Gate:
         self.free_run = False
     def tracer(self, tid):
         def local(frame, event, arg):
-            if event == "line" and frame.f_code.co_filename in FILES and not self.free_run:
+            if event == "line" and not self.free_run and (FILES.get(frame.f_code.co_filename), frame.f_lineno) in LINES:
                 with self.cv:
                     self.waiting[tid] = frame.f_lineno
                     self.cv.notify_all()
@@ -283,7 +286,7 @@ def sequential_outcomes():
 
 REPLAY_LIN = REPLAY_SCHED + r'''
 if __name__ == "__main__":
-    order = [e["thread"] for e in TRACE if e["lineevent"]]
+    order = ORDER
     a = _atom.Atom(1)
     results, desync, alive = run_schedule(a, order)
     if alive:
@@ -292,6 +295,36 @@ if __name__ == "__main__":
     if not any(a.deref() == fin and results == res for fin, res in outs):
         print("REPRODUCED: outcome", a.deref(), results, "matches no sequential order; desync=", desync); sys.exit(1)
     print("HOLDS final=", a.deref(), "desync=", desync)
+'''
+
+REPLAY_WATCH = REPLAY_SCHED + r'''
+def chain_ok(init, final, notes):
+    """every notification is a real transition <=> the notifications can be ordered into a chain init -> ... -> final"""
+    import itertools
+    if not notes:
+        return init == final
+    for perm in itertools.permutations(notes):
+        cur = init
+        ok = True
+        for (o, n) in perm:
+            if o != cur:
+                ok = False
+                break
+            cur = n
+        if ok and cur == final:
+            return True
+    return False
+if __name__ == "__main__":
+    order = ORDER
+    a = _atom.Atom(1)
+    notes = []
+    a.add_watch("w", lambda k, ref, old, new: notes.append((old, new)))
+    results, desync, alive = run_schedule(a, order)
+    if alive:
+        print("REPRODUCED: threads did not terminate under the model's schedule"); sys.exit(1)
+    if not chain_ok(1, a.deref(), notes):
+        print("REPRODUCED: watch notifications", notes, "are not the real transitions of the atom (initial 1, final", a.deref(), "); desync=", desync); sys.exit(1)
+    print("HOLDS notifications=", notes, "desync=", desync)
 '''
 
 REPLAY_PROGRESS = r'''
@@ -452,7 +485,7 @@ def run(rep, tier, seed):
             # the twin must be sat; its schedule is replayed on the real Atom (validates CFG + line mapping)
             if st == "sat":
                 tr = mark_line_events(r["trace"])
-                body = REPLAY_LIN.format(trace=json.dumps(tr), config=json.dumps(cfg))
+                body = REPLAY_LIN.format(trace=json.dumps(tr), config=json.dumps(cfg), lines=json.dumps(r["lines"]), order=json.dumps(grants(r["trace"])))
                 path = env.write_replay(rep.prop, "sched_" + name, body)
                 ok, line = env.replay_reproduces(path, timeout=120)
                 if ok:
@@ -479,7 +512,8 @@ def run(rep, tier, seed):
                 ok, line = env.replay_reproduces(path, timeout=60)
             else:
                 tr = mark_line_events(r["trace"])
-                body = REPLAY_LIN.format(trace=json.dumps(tr), config=json.dumps(cfg))
+                body = (REPLAY_WATCH if kind == "watch" else REPLAY_LIN).format(trace=json.dumps(tr), config=json.dumps(cfg), lines=json.dumps(r["lines"]),
+                                                                                order=json.dumps(grants(r["trace"])))
                 path = env.write_replay(rep.prop, name, body)
                 ok, line = env.replay_reproduces(path, timeout=120)
             res.reproduced = ok
